@@ -22,7 +22,7 @@ T = {
          "Rocq proofs (corollaries of the exact refinement theorems; order theorems) + bit-exact correspondence + suffix-vs-full comparison on the implementation"),
  "C03": ("Theorems for every number type (bit-exact): RSI = 100U/(U+D) from two EMAs of gains/losses seeded 0.1; FastStochastic = formula on Minimum/Maximum (scalar and bar paths), SlowStochastic = EMA(Fast), PPO, CCI, OBV as documented. Over exact reals: FastStochastic is the formula on the least/greatest of exactly the last min(t,n) prices; RateOfChange, EfficiencyRatio, MoneyFlowIndex and CCI refine their documented ratios over the last n / n+1 inputs, with the IEEE value on a zero denominator (C03_roc, C03_er, C03_mfi, C03_cci_exact and the value lemmas). Rounding components: T2 against the exact-rational instance with exact condition numbers (partial).",
          "Rocq proofs (stream induction; order-theoretic window characterisation; ring-buffer refinements) + bit-exact correspondence + exact-rational check with condition numbers"),
- "C07": ("Theorems over exact reals (slack 0): FastStochastic in [0,100] on every finite stream; RSI in [0,100] whenever its denominator is non-zero (NaN exactly otherwise); SlowStochastic in [0,100]; EfficiencyRatio in [0,1] whenever the path length is non-zero (triangle inequality along the path); MFI in [0,100] whenever the window carries flow. Rounding slack: range predicate on the implementation (partial).",
+ "C07": ("Theorems over exact reals (slack 0): FastStochastic in [0,100] on every finite stream; RSI in [0,100] whenever its denominator is non-zero (NaN exactly otherwise); SlowStochastic in [0,100]; EfficiencyRatio in [0,1] whenever the path length is non-zero (triangle inequality along the path); MFI in [0,100] whenever the window carries flow. On binary64 FastStochastic is proved to stay in [0,100] with no slack at all (C07_fast_binary64_range: monotone rounding, Flocq). Rounding slack of the others: range predicate on the implementation (partial).",
          "Rocq proofs (convexity of the EMA recursion, order theorems, triangle inequality) + bit-exact correspondence + range predicate on implementation outputs"),
  "C08": ("Theorems (exact arithmetic): on a flat window MAD = 0, SD = 0, Bollinger bands collapse, FastStochastic returns the literal 50, TrueRange 0, RateOfChange 0, CCI 0. Refuted for EfficiencyRatio, RSI, MFI, CCI by vm_compute witnesses on the float model (C08_K3..K6) and, for every flat / zero-flow window in exact arithmetic, by C08_K3_er_flat_exact and C08_K5_mfi_zero_flow_exact (the result is 0/0 = NaN); replayed on the implementation and listed as known findings; every other degenerate-window failure is a violation.",
          "Rocq proofs + vm_compute refutation witnesses + flat-stretch enumeration on the implementation with known-finding classification"),
